@@ -45,6 +45,7 @@ func (r *BasicPrivateTokenRequest) Marshal() []byte {
 }
 
 func (r *BasicPrivateTokenRequest) Unmarshal(data []byte) bool {
+	r.raw = nil // forget the cached encoding of whatever the object held before
 	s := cryptobyte.String(data)
 
 	var tokenType uint16
